@@ -190,13 +190,14 @@ def ob_branches(run, tier):
                             g[0] += 1
     # other block-ending / continuing instructions through the decoder: classification end to end
     for hx in ['c3', 'c20400', 'cb', 'ca0400', 'cf', 'f4', '0f0b', 'cc', 'cd80', 'ce', 'ffe0', 'ff20', 'ffd0', 'ff10', 'ff28', 'ff18', 'ea000000000000', '9a000000000000', '90', '01d8', 'a4', 'd8c1', '0f58c1', '0f05', '0f34']:
-        bs = binascii.unhexlify(hx)
+      for pre in ('', '66', 'f366', '2e'):       # the same instructions under an operand-size prefix (other table rows / substitute mnemonics: iret, ret, pushf ...)
+        bs = binascii.unhexlify(pre + hx)
         for off in (0, 0xFFFFFFF0):
             r = check_branch(bs + b'\x90' * 4, off)
             if r is None: continue
             n += 1
             for (clause, msg) in r:
-                g = groups.setdefault((hx, clause), [0, (bs + b'\x90' * 4).hex(), off, msg])
+                g = groups.setdefault((pre + hx, clause), [0, (bs + b'\x90' * 4).hex(), off, msg])
                 g[0] += 1
     # history: decodes in 16-bit address / operand size share table entries (operand descriptors) with the 32-bit forms; after them every
     # plain encoding must still give what it gave before
